@@ -824,5 +824,3 @@ Proof.
       * intros Hvc. apply Hmut; assumption.
 Qed.
 End Correct.
-Check tarjan_exact_wf.
-Print Assumptions tarjan_exact_wf.
